@@ -60,6 +60,19 @@ class NoSecMatcher(TimestampMatcherBase):
         return 0
 
 
+FRAC = (r'^(?P<year>\d{4})-(?P<month>\d{2})-(?P<day>\d{2})[\sT]+'
+        r'(?P<hours>\d{2}):(?P<minutes>\d{2}):(?P<seconds>\d{2})(?P<fraction>[.,]\d+)?'
+        r'(?: ?(?P<tz>[+-]\d{4}|Z))?')
+
+
+class FracMatcher(TimestampMatcherBase):
+    """ optional groups (fraction of a second, zone) besides the six date-time fields: they
+    may or may not take part in a match """
+    @property
+    def patterns(self):
+        return [FRAC]
+
+
 class StdMatcher(TimestampMatcherBase):
     """ one pattern, every field read straight from the match """
     @property
@@ -94,9 +107,9 @@ class SubBrkMatcher(StdMatcher):
 
 MATCHERS = {'std': StdMatcher, 'multi': MultiMatcher, 'derived': DerivedMatcher,
             'loose': LooseMatcher, 'ampm': AmPmMatcher, 'nosec': NoSecMatcher,
-            'subbrk': SubBrkMatcher}
+            'subbrk': SubBrkMatcher, 'frac': FracMatcher}
 _PATTERNS = {'std': [STD], 'multi': [BRK, STD], 'derived': [USYY], 'loose': [LOOSE], 'ampm': [AMPM],
-             'nosec': [NOSEC], 'subbrk': [BRK]}
+             'nosec': [NOSEC], 'subbrk': [BRK], 'frac': [FRAC]}
 DATE_FORMAT = '%Y-%m-%d %H:%M:%S'
 
 
@@ -149,4 +162,7 @@ def fmt_ts(kind, dt, rng=None):
     sep = ' '
     if rng is not None and rng.random() < 0.15:
         sep = rng.choice(['T', '  ', '\t'])
-    return dt.strftime('%Y-%m-%d') + sep + dt.strftime('%H:%M:%S')
+    tail = ''
+    if kind == 'frac' and rng is not None:
+        tail = rng.choice(['', '', '.123', ',5', '.000001 +0100', ' Z', '.9Z'])
+    return dt.strftime('%Y-%m-%d') + sep + dt.strftime('%H:%M:%S') + tail
